@@ -299,6 +299,7 @@ class Case:
         self.n = 0
         self.blobs = []
         self.shared = {}
+        self.history_error = None
         self.loop = None
 
     def next_age(self):
@@ -374,7 +375,12 @@ class Case:
         self.bm = BlobManager(self.loop, self.bd, self.st, self.conf)
         await self.bm.setup()
         if self.case.get('hist'):
-            await self.bookkeeping_history(self.case['hist'])
+            try:
+                await self.bookkeeping_history(self.case['hist'])
+            except (RuntimeError, ValueError):
+                raise
+            except Exception as e:   # noqa - a refusal by lbry code; whatever state it left is what the passes meet
+                self.history_error = type(e).__name__
         self.dsm = DiskSpaceManager(self.conf, self.st, self.bm)
 
     async def restart_manager(self):
@@ -439,6 +445,8 @@ def run_case(case, res, log=None):
     loop = cs.loop = VLoop().activate()
     try:
         loop.run(cs.build())
+        if cs.history_error:
+            res.tally(f'bookkeeping_history_raised_{cs.history_error}')
         model = Model(cs.blobs)
         used0 = {'content': model.used_content(), 'network': model.used_network()}
         if used0 != case_usage(case):
